@@ -41,6 +41,7 @@ type (
 		client          RedisClient
 		disp            *cmdDispatcher
 		cmdQueue        *[]*cmdContext
+		cmdQueueAborted bool // a command was rejected while queueing; EXEC must not run
 		watches         map[watchKey]uint64
 		blocked         int32
 		unblockPending  int32
